@@ -2,6 +2,7 @@ package checks
 
 import (
 	"fmt"
+	"math/rand"
 	"path/filepath"
 	"sort"
 	"strings"
@@ -46,6 +47,11 @@ func checkAPI(c *pgen.Case, facts []*core.FileFacts) []string {
 		if len(ffs) == 0 {
 			problems = append(problems, fmt.Sprintf("no file emitted into %s for converter %s", cv.OutPkgPath, cv.Name))
 			continue
+		}
+		for _, f := range ffs {
+			if cv.OutPkgName != "" && f.ParseErr == "" && f.Package != cv.OutPkgName {
+				problems = append(problems, fmt.Sprintf("file %s has package clause %q, the configured/inferred package is %q", filepath.Base(f.Path), f.Package, cv.OutPkgName))
+			}
 		}
 		switch cv.Format {
 		case "struct":
@@ -125,10 +131,40 @@ func c01Corpus(e *core.Env) []*pgen.Case {
 		o.Monitors = []string{"value"}
 		o.HostilePkgs = i%5 == 4
 		o.NConverters = 1
+		o.CLIPackage = i%11 == 5
 		if i%7 == 3 {
 			o.NConverters = 2 + i%2
 		}
 	})
+	return cases
+}
+
+// otherCorpora samples the settings-oriented generators (field settings, custom functions, enums, update, default,
+// pointer matrix) and their negative programs: whatever goverter accepts of them must compile, too.
+func otherCorpora(e *core.Env, per int) []*pgen.Case {
+	r := rand.New(rand.NewSource(e.Seed*7907 + 1))
+	var cases []*pgen.Case
+	sub := func() *rand.Rand { return rand.New(rand.NewSource(r.Int63())) }
+	for i := 0; i < per; i++ {
+		f := formats[i%3]
+		seed := e.Seed*17 + int64(i)
+		cases = append(cases, pgen.FieldCase(sub(), fmt.Sprintf("xf%04d", i), pgen.FieldOpts{Format: f, Seed: seed, NValues: 5}))
+		cases = append(cases, pgen.CustomCase(sub(), fmt.Sprintf("xc%04d", i), pgen.CustomOpts{Format: f, Seed: seed, NValues: 5, MaxFaults: 2,
+			WrapMode: []string{"none", "wrapErrors", "using"}[(i/3)%3], WrapLevel: []string{"conv", "cli"}[(i/9)%2], Fallible: i%2 == 0}))
+		ec, _ := pgen.EnumCase(sub(), fmt.Sprintf("xe%04d", i), pgen.EnumOpts{Format: f, Seed: seed, NValues: 5})
+		cases = append(cases, ec)
+		cases = append(cases, pgen.UpdateCase(sub(), fmt.Sprintf("xu%04d", i), pgen.UpdateOpts{Format: f, Seed: seed, NValues: 9}))
+		cases = append(cases, pgen.DefaultCase(sub(), fmt.Sprintf("xd%04d", i), pgen.DefaultOpts{Format: f, Seed: seed, NValues: 8}))
+		pc, _ := pgen.PointerCase(sub(), fmt.Sprintf("xp%04d", i), pgen.DefaultOpts{Format: f, Seed: seed, NValues: 5})
+		cases = append(cases, pc)
+	}
+	rename := func(cs []*pgen.Case) []*pgen.Case {
+		return cs
+	}
+	cases = append(cases, rename(pgen.NegativeFieldCases())...)
+	cases = append(cases, c06Negatives()...)
+	cases = append(cases, c07Negatives()...)
+	cases = append(cases, c10Negatives()...)
 	return cases
 }
 
@@ -139,6 +175,7 @@ func C01(e *core.Env) int {
 	rep.Assumptions = []string{"Go compiler is the validity oracle", "assertion files are derived from the input IR, not from goverter's output"}
 	rep.Floor = tierN(e, 30, 300)
 	cases := append(c01Corpus(e), pinnedC01()...)
+	cases = append(cases, otherCorpora(e, tierN(e, 25, 300))...)
 	p, err := runPipelineOpts(e, "c01", cases, pipeOpts{Execute: true, Asserts: true})
 	if err != nil {
 		rep.Inconclusive = append(rep.Inconclusive, err.Error())
@@ -205,7 +242,7 @@ func compileClass(s string) string {
 }
 
 func pinnedC01() []*pgen.Case {
-	return []*pgen.Case{pgen.PinnedPkgShadow("pin_pkg_shadow"), pgen.PinnedHelperRedeclared("pin_helper_redeclared")}
+	return []*pgen.Case{pgen.PinnedPkgShadow("pin_pkg_shadow"), pgen.PinnedHelperRedeclared("pin_helper_redeclared"), pinnedNonComparable("pin_update_noncomparable")}
 }
 
 // C18: emitted code is reflection-free, stateless and imports only what it needs.
@@ -215,6 +252,9 @@ func C18(e *core.Env) int {
 	rep.Assumptions = []string{"go/parser", "the set of packages a case may import is known from the generator's IR"}
 	rep.Floor = tierN(e, 30, 300)
 	cases := c01Corpus(e)
+	cases = append(cases, otherCorpora(e, tierN(e, 25, 300))...)
+	cases = append(cases, pinnedNonComparable("pin_update_noncomparable"))
+	cases = append(cases, c18Probes()...)
 	p, err := runPipelineOpts(e, "c18", cases, pipeOpts{Execute: false})
 	if err != nil {
 		rep.Inconclusive = append(rep.Inconclusive, err.Error())
@@ -259,6 +299,9 @@ func C18(e *core.Env) int {
 				}
 			}
 			for tn, k := range f.Types {
+				if len(c.Convs) == 0 && k == "struct{}" && strings.HasSuffix(tn, "Impl") {
+					continue // literal-text case: the converter struct is <Interface>Impl
+				}
 				if !impls[tn] || k != "struct{}" {
 					rep.Violation(&core.Viol{Kind: "state", Case: c.Name, Summary: fmt.Sprintf("emitted file declares type %s (%s) besides the converter struct", tn, k), Detail: f.Path, Dir: cr.Dir, Tags: tags})
 				}
@@ -283,4 +326,35 @@ func importClass(imp string) string {
 		}
 	}
 	return imp
+}
+
+// pinnedNonComparable reproduces F-C01-noncomparable-zero: update:ignoreZeroValueField:struct on a struct field
+// that contains a slice emits `source.S != (T{})`, which does not compile.
+func pinnedNonComparable(name string) *pgen.Case {
+	c := pgen.RawCase(name, map[string]string{"p/input.go": "package p\n\ntype Inner struct{ L []int; V int }\ntype In struct{ S Inner; N int }\ntype Out struct{ S Inner; N int }\n\n// goverter:converter\n// goverter:output:file ./zz_generated.go\ntype Converter interface {\n\t// goverter:update target\n\t// goverter:update:ignoreZeroValueField:struct\n\tUpdate(source In, target *Out)\n}\n"}, nil, []string{"./p"})
+	c.Feature("tag", "noncomparable-zero,pinned")
+	return c
+}
+
+// c18Probes: settings that would need fmt are configured but not in effect for any method: fmt must not be imported.
+func c18Probes() []*pgen.Case {
+	mk := func(name, body string, args ...string) *pgen.Case {
+		c := pgen.RawCase("probe_"+name, map[string]string{"p/input.go": "package p\n\nfunc SE(s string) (string, error) { return s, nil }\ntype In struct{ S string }\ntype Out struct{ S string }\ntype KA int\nconst A1 KA = 1\ntype KB int\nconst B1 KB = 1\n\n" + body}, args, []string{"./p"})
+		c.Feature("probe", name)
+		return c
+	}
+	return []*pgen.Case{
+		// wrapErrors on the converter, every method opts out
+		mk("wraperrors_all_optout", "// goverter:converter\n// goverter:extend SE\n// goverter:wrapErrors\ntype Converter interface {\n\t// goverter:wrapErrors no\n\tA(source In) (Out, error)\n\t// goverter:wrapErrors no\n\tB(source []In) ([]Out, error)\n}\n"),
+		// wrapErrors globally but nothing can fail
+		mk("wraperrors_nothing_fails", "// goverter:converter\ntype Converter interface {\n\tA(source In) Out\n}\n", "-g", "wrapErrors"),
+		// enum:unknown @error configured but no enum is converted
+		mk("enum_error_no_enum", "// goverter:converter\n// goverter:enum:unknown @error\ntype Converter interface {\n\tA(source In) Out\n}\n"),
+		// enum pair with @ignore: no fmt
+		mk("enum_ignore", "// goverter:converter\n// goverter:enum:unknown @ignore\ntype Converter interface {\n\t// goverter:enum:map A1 B1\n\tA(source KA) KB\n}\n"),
+		// enum with key
+		mk("enum_key", "// goverter:converter\n// goverter:enum:unknown B1\ntype Converter interface {\n\t// goverter:enum:map A1 B1\n\tA(source KA) KB\n}\n"),
+		// fallible extend without any wrapping
+		mk("extend_error_plain", "// goverter:converter\n// goverter:extend SE\ntype Converter interface {\n\tA(source In) (Out, error)\n}\n"),
+	}
 }
